@@ -99,8 +99,8 @@ Fixpoint str_loop (s : list N) (fuel p : nat) : res (option nat) :=
     else match get s p with
          | None => Oob
          | Some c =>
-           let continue_ :=
-             if (c =? NL)%N then Ok None else str_loop s f (S p) in
+           (* (the continuation `if c == '\n' { return None } pos += 1` is written out twice: a
+              let-bound continuation would be evaluated eagerly by vm_compute and OCaml) *)
            if (c =? QUOTE)%N then
              match escape_count s p with
              | Ok k =>
@@ -109,11 +109,11 @@ Fixpoint str_loop (s : list N) (fuel p : nat) : res (option nat) :=
                  | Some _ => Ok (Some (p + 1))
                  | None => Oob
                  end
-               else continue_
+               else if (c =? NL)%N then Ok None else str_loop s f (S p)
              | Oob => Oob
              | Fuel => Fuel
              end
-           else continue_
+           else if (c =? NL)%N then Ok None else str_loop s f (S p)
          end
   end.
 
